@@ -90,7 +90,11 @@ UndoOneLaw(r, t, p) ==        \* R(-a)(R(a)(p + t) - R(a) t) = p; the translatio
 (* rectangles: centre + orientation; discs: centre; polygons: vertices (clockwise, as stored);                   *)
 (* orientation intervals: <<start, end>>.  role = obstacle role the component belongs to ("none" otherwise).      *)
 Roles == {"static", "dynamic", "phantom", "environment"}
-C(kind, role, path, pts, oris) == [kind |-> kind, role |-> role, path |-> path, pts |-> pts, oris |-> oris]
+(* vels = stored velocity vectors <<velocity, velocity_y>> (velocity_y = 0 when the state stores a speed only), vrule =  *)
+(* what the motion does to them: "rotate" (point-mass: the vector is turned by a) or "keep" (body-frame speeds).       *)
+CV(kind, role, path, pts, oris, vels, vrule) ==
+    [kind |-> kind, role |-> role, path |-> path, pts |-> pts, oris |-> oris, vels |-> vels, vrule |-> vrule]
+C(kind, role, path, pts, oris) == CV(kind, role, path, pts, oris, <<>>, "keep")
 SC   == <<"scenario", "-">>
 NET  == <<"lanelet_network", "-">>
 L1   == <<"lanelet", "1">>
@@ -191,11 +195,69 @@ ASSUME \A i \in DOMAIN Rects : LET r == Rects[i] IN
                  (lx * r[7][1] - ly * r[7][2]) % r[7][3] = 0 /\ (lx * r[7][2] + ly * r[7][1]) % r[7][3] = 0
           /\ \E j \in DOMAIN BaseWorld : /\ BaseWorld[j].kind = r[1] /\ BaseWorld[j].path = r[3] /\ BaseWorld[j].role = r[2]
                                          /\ r[4] \in Range(BaseWorld[j].pts) /\ r[7] \in Range(BaseWorld[j].oris)
-World == BaseWorld \o [i \in DOMAIN Rects |-> C("rect_corners/" \o Rects[i][1], Rects[i][2], Rects[i][3], RectCorners(Rects[i]), <<>>)]
+RectWorld == [i \in DOMAIN Rects |-> C("rect_corners/" \o Rects[i][1], Rects[i][2], Rects[i][3], RectCorners(Rects[i]), <<>>)]
+
+(* ---- state classes by attribute combination ------------------------------------------------------------------------ *)
+(* ori: "exact" stored angle | "interval" stored AngleInterval | "none" no orientation attribute | "derived" orientation  *)
+(*      is a read-only property computed from the velocity components (PMState)                                           *)
+(* vel: "xy" stores velocity and velocity_y | "x" stores velocity only | "none";   pos: 1 = stores a position             *)
+(* RULE (statement: every stored orientation th maps to th + a): a state that stores an orientation gets                  *)
+(* orientation + a and its velocity components are body-frame quantities and stay; a state WITHOUT a stored orientation   *)
+(* that stores velocity and velocity_y is a point mass: its heading is the direction of the velocity vector, so the        *)
+(* vector is rotated by a.                                                                                                *)
+SCl(id, ori, vel, pos) == [id |-> id, ori |-> ori, vel |-> vel, pos |-> pos]
+StateClasses == <<
+  SCl("initial", "exact", "x", 1), SCl("ks", "exact", "x", 1), SCl("kst", "exact", "x", 1), SCl("st", "exact", "x", 1),
+  SCl("std", "exact", "x", 1), SCl("mb", "exact", "xy", 1), SCl("pm", "derived", "xy", 1), SCl("extpm", "exact", "x", 1),
+  SCl("lateral", "exact", "none", 0),
+  SCl("c_e_xy", "exact", "xy", 1), SCl("c_e_x", "exact", "x", 1), SCl("c_e_n", "exact", "none", 1),
+  SCl("c_n_xy", "none", "xy", 1),  SCl("c_n_x", "none", "x", 1),  SCl("c_n_n", "none", "none", 1),
+  SCl("c_i_xy", "interval", "xy", 1), SCl("c_i_x", "interval", "x", 1), SCl("c_i_n", "interval", "none", 1) >>
+VRule(sc) == IF sc.vel = "xy" /\ sc.ori \in {"none", "derived"} THEN "rotate" ELSE "keep"
+OriList == << <<3, 4, 5>>, <<4, 3, 5>>, <<0, 1, 1>>, <<-3, 4, 5>>, <<4, -3, 5>>, <<-1, 0, 1>> >>
+VelList == << <<3, 4>>, <<4, -3>>, <<-4, 3>>, <<-3, -4>> >>
+SPos(i)  == <<2 * i - 19, 10 - i>>
+SPts(i)  == IF StateClasses[i].pos = 1 THEN << SPos(i) >> ELSE <<>>
+SOris(i) == LET sc == StateClasses[i] IN IF sc.ori = "exact" THEN << OriList[(i % 6) + 1] >>
+                                         ELSE IF sc.ori = "interval" THEN << <<4, 3, 5>>, <<3, 4, 5>> >> ELSE <<>>
+SVels(i) == LET sc == StateClasses[i] IN IF sc.vel = "xy" THEN << VelList[(i % 4) + 1] >>
+                                         ELSE IF sc.vel = "x" THEN << <<i + 1, 0>> >> ELSE <<>>
+(* heading used for the occupancy of a trajectory state: the stored angle, or the direction of the velocity vector      *)
+HasHeading(i) == LET sc == StateClasses[i] IN sc.ori = "exact" \/ (sc.ori \in {"none", "derived"} /\ sc.vel = "xy")
+Heading(i) == IF StateClasses[i].ori = "exact" THEN SOris(i)[1] ELSE <<SVels(i)[1][1], SVels(i)[1][2], 5>>
+Parts == {"states", "statetraj", "stategoal"}
+ODS(i) == <<"obstacle_dynamic", ToString(100 + i)>>
+PP41 == <<"planning_problem", "41">>
+SIdx == [i \in DOMAIN StateClasses |-> i]
+WithPos == SelectSeq(SIdx, LAMBDA i : StateClasses[i].pos = 1)
+WithHeading == SelectSeq(SIdx, LAMBDA i : StateClasses[i].pos = 1 /\ HasHeading(i))
+GoalIdx == <<1, 2, 3, 4, 5, 6, 8, 7, 17>>          \* classes that can serve as goal states (position, velocity, orientation only)
+(* stand-alone states (each its own root), trajectory states of one dynamic obstacle per class (+ the occupancy the       *)
+(* obstacle reports for that state AFTER the motion: shape placed at the state), goal states of planning problem 41       *)
+StateWorld ==
+    [i \in DOMAIN StateClasses |-> CV("st/" \o StateClasses[i].id, "states", << <<"state", StateClasses[i].id>> >>,
+                                      SPts(i), SOris(i), SVels(i), VRule(StateClasses[i]))]
+    \o [k \in DOMAIN WithPos |-> LET i == WithPos[k] IN
+           C("dynamic_init", "statetraj", <<SC, ODS(i), ST>>, << <<SPos(i)[1], SPos(i)[2] - 1>> >>, << <<1, 0, 1>> >>)]
+    \o [k \in DOMAIN WithPos |-> LET i == WithPos[k] IN
+           CV("tr/" \o StateClasses[i].id, "statetraj", <<SC, ODS(i), PRED, TRAJ, S("0")>>,
+              SPts(i), SOris(i), SVels(i), VRule(StateClasses[i]))]
+    \o [k \in DOMAIN WithHeading |-> LET i == WithHeading[k] IN
+           C("tr.occ/" \o StateClasses[i].id, "statetraj", <<SC, ODS(i), PRED, TRAJ, <<"occupancy_query", "-">> >>,
+             << SPos(i) >>, << Heading(i) >>)]
+    \o << C("pp_init", "stategoal", <<PPS, PP41, ST>>, << <<0, 0>> >>, << <<1, 0, 1>> >>) >>
+    \o [k \in DOMAIN GoalIdx |-> C("goal_shape", "stategoal", <<PPS, PP41, GOAL, S(ToString(k - 1))>>, << SPos(GoalIdx[k]) >>, <<>>)]
+    \o SelectSeq([k \in DOMAIN GoalIdx |-> C("goal_ori", "stategoal", <<PPS, PP41, GOAL, S(ToString(k - 1))>>, <<>>,
+                                               IF StateClasses[GoalIdx[k]].ori = "derived" THEN <<>> ELSE << <<4, 3, 5>>, <<3, 4, 5>> >>)],
+                 LAMBDA c : c.oris # <<>>)
+World == BaseWorld \o RectWorld \o StateWorld
 (* components whose points form a polygon (signed area law) *)
 IsPoly(c) == c.kind \in {"occ_polygon", "goal_lanelet", "lanelet_polygon"} \/ (c.kind \in {"env_shape", "phantom_occ", "goal_shape"} /\ Len(c.pts) >= 3)
 
-WorldOf(mix) == SelectSeq(World, LAMBDA c : c.role = "none" \/ c.role \in mix)
+(* a mix is a set of obstacle roles (the reference scenario + planning problems restricted to them) or a set of Parts  *)
+(* (the state-class universes on their own)                                                                          *)
+WorldOf(mix) == IF mix \cap Parts # {} THEN SelectSeq(World, LAMBDA c : c.role \in mix)
+                ELSE SelectSeq(World, LAMBDA c : c.role = "none" \/ c.role \in mix)
 Kinds == {World[i].kind : i \in DOMAIN World}
 KindsOf(mix) == {c.kind : c \in Range(WorldOf(mix))}
 LevelKinds(path) == [i \in DOMAIN path |-> path[i][1]]
@@ -207,13 +269,18 @@ ASSUME \A i \in DOMAIN World : Range(World[i].oris) \subseteq OriTok
 IsPrefix(a, b) == Len(a) <= Len(b) /\ \A i \in DOMAIN a : a[i] = b[i]
 InScope(tgt, c) == IsPrefix(tgt, c.path)
 Level(tgt) == tgt[Len(tgt)][1]
-Targets(W) == UNION {{SubSeq(c.path, 1, n) : n \in 1..Len(c.path)} : c \in Range(W)}
+Targets(W) == {p \in UNION {{SubSeq(c.path, 1, n) : n \in 1..Len(c.path)} : c \in Range(W)} :
+                   p[Len(p)][1] # "occupancy_query"}          \* a query result is not an object one can move
 Children(W, tgt) == {p \in Targets(W) : Len(p) = Len(tgt) + 1 /\ IsPrefix(tgt, p)}
 (* image of a component: points as numerators over den, directions as numerators over o[3] * den             *)
+VelImage(r, v) == Image(r, <<0, 0>>, v)                    \* a velocity is a vector: rotated, never translated
+VelKept(r, v)  == <<r[3] * v[1], r[3] * v[2]>>
 Moved(c, t, r)   == [pts |-> [i \in DOMAIN c.pts |-> Image(r, t, c.pts[i])],
-                     oris |-> [i \in DOMAIN c.oris |-> AngleSum(c.oris[i], r)]]
+                     oris |-> [i \in DOMAIN c.oris |-> AngleSum(c.oris[i], r)],
+                     vels |-> [i \in DOMAIN c.vels |-> IF c.vrule = "rotate" THEN VelImage(r, c.vels[i]) ELSE VelKept(r, c.vels[i])]]
 Unmoved(c, r)    == [pts |-> [i \in DOMAIN c.pts |-> <<r[3] * c.pts[i][1], r[3] * c.pts[i][2]>>],
-                     oris |-> [i \in DOMAIN c.oris |-> <<r[3] * c.oris[i][1], r[3] * c.oris[i][2], r[3] * c.oris[i][3]>>]]
+                     oris |-> [i \in DOMAIN c.oris |-> <<r[3] * c.oris[i][1], r[3] * c.oris[i][2], r[3] * c.oris[i][3]>>],
+                     vels |-> [i \in DOMAIN c.vels |-> VelKept(r, c.vels[i])]]
 TRComp(c, tgt, t, r) == IF InScope(tgt, c) THEN Moved(c, t, r) ELSE Unmoved(c, r)
 TR(W, tgt, t, r) == [i \in DOMAIN W |-> TRComp(W[i], tgt, t, r)]
 (* a motion that leaves this very point / direction where it is (then "moved" and "not moved" coincide)       *)
